@@ -1,0 +1,34 @@
+// Copyright 1995-2016 V.I. Tretyak
+// Copyright 2011-2017 F. Mauger
+//
+// This program is free software: you  can redistribute it and/or modify
+// it under the terms of the GNU General Public License as published by
+// the Free  Software Foundation, either  version 3 of the  License, or
+// (at your option) any later version.
+//
+// This program is distributed in the hope that it will be useful, but
+// WITHOUT ANY WARRANTY
+// MERCHANTABILITY or FITNESS FOR A PARTICULAR PURPOSE. See the GNU
+// General Public License for more details.
+//
+// You should have received a copy of the GNU General Public License
+// along with this program. If not, see <http://www.gnu.org/licenses/>.
+
+#ifndef BXDECAY0_TI46LOW_H
+#define BXDECAY0_TI46LOW_H
+
+namespace bxdecay0 {
+
+  class i_random;
+  class event;
+
+  /// \brief Deexcitation of the Ti46 daughter nucleus after 2b-decay of Ca46
+  void Ti46low(i_random & prng_, event & event_, const int levelkev_);
+
+} // end of namespace bxdecay0
+
+#endif // BXDECAY0_TI46LOW_H
+
+// Local Variables: --
+// mode: c++ --
+// End: --
